@@ -21,6 +21,9 @@ EXPLANATION = (
     "where in the string it stands, which is exactly what differs between Path(a b) and Path(a) + b. "
     "Not decided: segment-wise numeric equality."
 )
+TECHNIQUE = (
+    "static analysis (no execution): effect analysis (which attributes the lexer stores and the builders read); cursor-independence lint of the dispatch; operator type-dispatch following for += / +"
+)
 ASSUMPTIONS = [
     "Attribute reads are collected syntactically on `self`; aliasing `self` through another name is not followed (none exists today and would be reported as an unknown read of a local).",
 ]
